@@ -169,6 +169,11 @@ func (st *State) assumeAllocated(v Val) {
 		}
 	case SliceV:
 		add(x.Arr)
+	case IfaceV:
+		// the payload of an interface value, when it is a reference, denotes an existing object
+		if _, ok := isIntLit(x.Pay); !ok {
+			st.assume(Or(Cmp("<=", x.Pay, IntLit(0)), Term{fmt.Sprintf("(select %s %s)", st.alloc.Name, x.Pay.S), SBool}))
+		}
 	case StructV:
 		for _, f := range x.F {
 			st.assumeAllocated(f)
